@@ -2,6 +2,13 @@
 
 package utils
 
+import (
+	"fmt"
+	"strings"
+
+	"golang.org/x/net/html"
+)
+
 // Contracts for the deductive verifier in /verif (build tag verif).
 
 //@ func Abs
@@ -96,6 +103,65 @@ package utils
 //@   assert after generator#1: prev == "" && name == "generator" && generator == content
 //@   call append#2 assert[author-as-found] name == "author" && len(arg1) == 1 && arg1[0] == content
 //@   ensures[fields] result.Title == title && result.Description == description && result.Generator == generator && result.Keywords == keywords && result.Authors == authors && result.Attachments == attachments
+
+// bounded stand-in (C14, "<meta> metadata is forwarded unchanged"): the keywords are the comma-separated pieces
+// of the content attribute with leading and trailing HTML SPACE CHARACTERS removed (space, tab, LF, FF, CR:
+// HTML Standard "strip leading and trailing ASCII whitespace" - U+00A0, U+3000, U+000B, U+0085 are part of
+// the keyword), duplicates dropped, in order. The stripping is a library call outside the contracts:
+// vKeywords compares GetHtmlMetadata with that definition for every content string up to length 5 over
+// nine characters.
+func vKeywords() (n int, fails []string) {
+	isSpace := func(r rune) bool { return r == ' ' || r == '\t' || r == '\n' || r == '\f' || r == '\r' }
+	ref := func(content string) []string {
+		out, seen := []string{}, map[string]bool{}
+		for _, piece := range strings.Split(content, ",") {
+			rs := []rune(piece)
+			for len(rs) > 0 && isSpace(rs[0]) {
+				rs = rs[1:]
+			}
+			for len(rs) > 0 && isSpace(rs[len(rs)-1]) {
+				rs = rs[:len(rs)-1]
+			}
+			if k := string(rs); !seen[k] {
+				out, seen[k] = append(out, k), true
+			}
+		}
+		return out
+	}
+	alphabet := []rune{'a', 'b', ',', ' ', '\t', '\u00a0', '\u3000', '\v', '\u0085'}
+	var rec func(buf []rune)
+	rec = func(buf []rune) {
+		n++
+		content := string(buf)
+		root, err := html.Parse(strings.NewReader(`<html><head><meta name="keywords" content="` + content + `"></head><body></body></html>`))
+		if err != nil {
+			if len(fails) < 5 {
+				fails = append(fails, fmt.Sprintf("%q: %v", content, err))
+			}
+			return
+		}
+		got := GetHtmlMetadata((*HTMLNode)(root), "").Keywords
+		want := ref(content)
+		same := len(got) == len(want)
+		for i := 0; same && i < len(got); i++ {
+			same = got[i] == want[i]
+		}
+		if !same && len(fails) < 5 {
+			fails = append(fails, fmt.Sprintf("content=%q: keywords %q, expected %q", content, got, want))
+		}
+		if len(buf) == 5 {
+			return
+		}
+		for _, r := range alphabet {
+			rec(append(buf, r))
+		}
+	}
+	rec(make([]rune, 0, 6))
+	return n, fails
+}
+
+//@ bounded vKeywords GetHtmlMetadata on <meta name=keywords> for every content string up to length 5 over two letters, the comma, space, tab, U+00A0, U+3000, U+000B and U+0085, against the HTML definition (only the five HTML space characters are stripped)
+//@   props C14
 
 //@ func MinF
 //@   props C18
